@@ -8,7 +8,9 @@ CONSTANT MaxSeq
 E0(a, ex, inst) == Ev(a, ex, inst, "", "", "-", 0, FALSE, "-", <<>>, NoFilter)
 F(k, set) == [k |-> k, set |-> set]
 Filters == {NoFilter, F("Exchanges", <<0>>), F("Exchanges", <<1>>), F("Instruments", <<1>>), F("Instruments", <<0, 4, 0>>),
-            F("Instruments", <<0, 4>>), F("Underlyings", <<0>>), F("Underlyings", <<2>>), F("Underlyings", <<3, 4>>)}
+            F("Instruments", <<0, 4>>), F("Underlyings", <<0>>), F("Underlyings", <<2>>), F("Underlyings", <<3, 4>>),
+            \* a filter built from an EMPTY collection denotes the empty scope (not "no filter")
+            F("Exchanges", <<>>), F("Instruments", <<>>), F("Underlyings", <<>>)}
 
 MCEvents ==
        {E0("Market", ExOf(i), i) : i \in {0, 2, 4}}
@@ -54,7 +56,7 @@ ScopeInit == /\ st \in {[trading |-> "Disabled", conn |-> StInit("Disabled").con
                           a \in InstA, b \in InstB, c \in InstC, d \in InstB, e \in InstD}
              /\ seq = 0 /\ tick = NoTick /\ dl = [e \in 1..NEX |-> {}]
              /\ last = [ev |-> NoEvent, env |-> NoEnv]
-NonEmptySeqs(S) == {SetToSeq(T) : T \in (SUBSET S) \ {{}}}
+NonEmptySeqs(S) == {SetToSeq(T) : T \in SUBSET S}        \* (the empty collection included: the empty scope)
 AllFilters == {NoFilter} \cup {F("Exchanges", q) : q \in NonEmptySeqs({0, 1})}
                          \cup {F("Instruments", q) : q \in NonEmptySeqs({0, 1, 2, 3, 4})}
                          \cup {F("Underlyings", q) : q \in NonEmptySeqs({0, 2, 3, 4})}
